@@ -6,7 +6,7 @@
   - the expected canonical text computed from the tree alone.
 Names: tables T<i>, unions U<i>, structs S<size>_<align>, fields f<id>.
 """
-import struct
+import os, struct
 import vtree
 
 SC = {1: ["ubyte", "byte", "bool"], 2: ["ushort", "short"], 4: ["uint", "int", "float"], 8: ["ulong", "long", "double"]}
@@ -25,8 +25,9 @@ def sname(a, b): return "S%d_%d" % (a, b)
 class Typing:
     """assigns concrete schema types to descriptor fields (scalar type, default, optional; struct otherwise)"""
 
-    def __init__(self, r, tables, unions):
+    def __init__(self, r, tables, unions, json=False):
         self.r, self.tables, self.unions = r, tables, unions
+        self.json = json
         self.structs = set()
         self.ftype = {}          # (ti, id) -> dict(kind=..., ...)
         for ti, fs in enumerate(tables):
@@ -38,12 +39,17 @@ class Typing:
                         t = r.choice(SC[f["a"]])
                         opt = r.random() < 0.15
                         d = 0 if (opt or r.random() < 0.5) else self.rand_scalar(t)
-                        self.ftype[(ti, f["id"])] = dict(kind="scalar", t=t, default=d, optional=opt)
+                        en = None
+                        if json and t == "ubyte" and r.random() < 0.5: en, d, opt = "E8", 0, False
+                        if json and t == "ushort" and r.random() < 0.5: en, d, opt = "F16", 1, False     # bit flags have no 0 member: default Xa
+                        self.ftype[(ti, f["id"])] = dict(kind="scalar", t=t, default=d, optional=opt, enum=en)
                     else:
                         self.structs.add((f["a"], f["b"])); self.ftype[(ti, f["id"])] = dict(kind="struct", a=f["a"], b=f["b"])
                 elif k == "v":
                     if is_scalar(f["a"], f["b"]) and r.random() < 0.8:
-                        self.ftype[(ti, f["id"])] = dict(kind="svec", t=r.choice(SC[f["a"]]))
+                        t = r.choice(SC[f["a"]])
+                        if json and f["a"] == 1 and r.random() < 0.5: t = "ubyte"
+                        self.ftype[(ti, f["id"])] = dict(kind="svec", t=t, b64=(r.choice(["base64", "base64url"]) if json and t == "ubyte" and r.random() < 0.6 else None))
                     else:
                         self.structs.add((f["a"], f["b"])); self.ftype[(ti, f["id"])] = dict(kind="stvec", a=f["a"], b=f["b"])
                 elif k == "ns":
@@ -63,6 +69,9 @@ class Typing:
 
     def fbs(self, ident=None):
         out = ["namespace g;"]
+        if self.json:
+            out.append("enum E8:ubyte { Zero = 0, One = 1, Five = 5, Last = 255 }")
+            out.append("enum F16:ushort (bit_flags) { Xa, Yb, Zc, Hi = 15 }")
         for (a, b) in sorted(self.structs):
             out.append("struct %s (force_align: %d) { d:[ubyte:%d]; }" % (sname(a, b), b, a))
         for ti in range(len(self.tables)):
@@ -84,21 +93,21 @@ class Typing:
                     ft = self.ftype[(ti, i)]
                     if ft["kind"] == "scalar":
                         dv = " = null" if ft["optional"] else (" = %s" % self.lit(ft["t"], ft["default"]) if ft["default"] != 0 else "")
-                        lines.append("f%d:%s%s (id: %d);" % (i, ft["t"], dv, i))
+                        lines.append(("f%d" + FIELD_SUFFIX + ":%s%s (id: %d);") % (i, ft.get("enum") or ft["t"], dv if not ft.get("enum") else (" = Xa" if ft.get("enum") == "F16" else ""), i))
                     else:
-                        lines.append("f%d:%s (id: %d);" % (i, sname(f["a"], f["b"]), i))
-                elif k == "str": lines.append("f%d:string (id: %d%s);" % (i, i, req))
+                        lines.append(("f%d" + FIELD_SUFFIX + ":%s (id: %d);") % (i, sname(f["a"], f["b"]), i))
+                elif k == "str": lines.append(("f%d" + FIELD_SUFFIX + ":string (id: %d%s);") % (i, i, req))
                 elif k == "v":
                     ft = self.ftype[(ti, i)]
                     et = ft["t"] if ft["kind"] == "svec" else sname(f["a"], f["b"])
-                    lines.append("f%d:[%s] (id: %d%s);" % (i, et, i, req))
-                elif k == "sv": lines.append("f%d:[string] (id: %d%s);" % (i, i, req))
-                elif k == "t": lines.append("f%d:T%d (id: %d%s);" % (i, f["a"], i, req))
-                elif k == "tv": lines.append("f%d:[T%d] (id: %d%s);" % (i, f["a"], i, req))
-                elif k == "u": lines.append("f%d:U%d (id: %d%s);" % (i, f["a"], i, req)); used.add(i - 1)
-                elif k == "uv": lines.append("f%d:[U%d] (id: %d%s);" % (i, f["a"], i, req)); used.add(i - 1)
-                elif k == "nt": lines.append('f%d:[ubyte] (id: %d, nested_flatbuffer: "T%d");' % (i, i, f["a"]))
-                elif k == "ns": lines.append('f%d:[ubyte] (id: %d, nested_flatbuffer: "%s");' % (i, i, sname(f["a"], f["b"])))
+                    lines.append(("f%d" + FIELD_SUFFIX + ":[%s] (id: %d%s%s);") % (i, et, i, req, (", " + ft["b64"]) if ft.get("b64") else ""))
+                elif k == "sv": lines.append(("f%d" + FIELD_SUFFIX + ":[string] (id: %d%s);") % (i, i, req))
+                elif k == "t": lines.append(("f%d" + FIELD_SUFFIX + ":T%d (id: %d%s);") % (i, f["a"], i, req))
+                elif k == "tv": lines.append(("f%d" + FIELD_SUFFIX + ":[T%d] (id: %d%s);") % (i, f["a"], i, req))
+                elif k == "u": lines.append(("f%d" + FIELD_SUFFIX + ":U%d (id: %d%s);") % (i, f["a"], i, req)); used.add(i - 1)
+                elif k == "uv": lines.append(("f%d" + FIELD_SUFFIX + ":[U%d] (id: %d%s);") % (i, f["a"], i, req)); used.add(i - 1)
+                elif k == "nt": lines.append(('f%d' + FIELD_SUFFIX + ':[ubyte] (id: %d, nested_flatbuffer: "T%d");') % (i, i, f["a"]))
+                elif k == "ns": lines.append(('f%d' + FIELD_SUFFIX + ':[ubyte] (id: %d, nested_flatbuffer: "%s");') % (i, i, sname(f["a"], f["b"])))
             top = max(used) + 1 if used else 0
             for i in range(top):
                 if i not in used: lines.append("g%d:int (id: %d, deprecated);" % (i, i))
@@ -133,16 +142,22 @@ def default_bits(t, d):
     return d & ((1 << (8 * n)) - 1)
 
 
+FIELD_SUFFIX = ""       # JSON scenarios use "x": see known finding C10 unquoted-name-colon-vs-digit-sibling
+FINITE_ONLY = False      # JSON scenarios: the property excludes Inf as well as NaN
+
+
 def fix_scalar_bytes(t, data):
     """make raw bytes a legal, comparable value of the type: bool 0/1, no NaN (payloads do not survive by-value passing)"""
     if t == "bool": return bytes([data[0] & 1])
     if t == "float":
         u = struct.unpack("<I", data)[0]
-        if (u >> 23) & 0xff == 0xff and u & 0x7fffff: u &= ~(0xff << 23) | (0x7f << 23); u &= 0xffffffff
+        if (u >> 23) & 0xff == 0xff and (u & 0x7fffff or FINITE_ONLY): u &= ~(0xff << 23) | (0x7f << 23); u &= 0xffffffff
+        if FINITE_ONLY and u == 0x80000000: u = 0x80000001       # -0.0: see known finding negative-zero (a deterministic case covers it)
         return struct.pack("<I", u)
     if t == "double":
         u = struct.unpack("<Q", data)[0]
-        if (u >> 52) & 0x7ff == 0x7ff and u & ((1 << 52) - 1): u &= ~(1 << 52) & 0xffffffffffffffff
+        if (u >> 52) & 0x7ff == 0x7ff and (u & ((1 << 52) - 1) or FINITE_ONLY): u &= ~(1 << 52) & 0xffffffffffffffff
+        if FINITE_ONLY and u == 1 << 63: u |= 1
         return struct.pack("<Q", u)
     return data
 
@@ -226,6 +241,7 @@ class Prog:
     def dump_functions(self):
         o = []
         o.append("static void dstr(flatbuffers_string_t s) { size_t i, n = flatbuffers_string_len(s); putchar('\"'); for (i = 0; i < n; ++i) printf(\"%02x\", (unsigned char)s[i]); putchar('\"'); }")
+        o.append("static int g_presence = 1;\n#define PRES(p) (g_presence ? ((p) ? '=' : '~') : ':')")
         o.append("static void dhex(const void *p, size_t n) { size_t i; for (i = 0; i < n; ++i) printf(\"%02x\", ((const unsigned char *)p)[i]); }")
         for ti in range(len(self.tables)): o.append("static void dump_T%d(g_T%d_table_t t);" % (ti, ti))
         for ui, ms in enumerate(self.unions):
@@ -242,7 +258,7 @@ class Prog:
             first = True
             for f in sorted(fs, key=lambda f: f["id"]):
                 k, i = f["kind"], f["id"]
-                T = "g_T%d" % ti; fn = "f%d" % i
+                T = "g_T%d" % ti; fn = "f%d%s" % (i, FIELD_SUFFIX)
                 sep = "" if first else "putchar(';'); "
                 first = False
                 pre = '  %sprintf("%d"); ' % (sep, i)
@@ -254,7 +270,7 @@ class Prog:
                             b.append(pre + '{ flatbuffers_%s_option_t o = %s_%s_option(t); if (o.is_null) printf("~null"); else { putchar(\'=\'); %s } }'
                                      % (VECN[t], T, fn, self.print_scalar(t, "o.value")))
                         else:
-                            b.append(pre + "putchar(%s_%s_is_present(t) ? '=' : '~'); %s" % (T, fn, self.print_scalar(t, "%s_%s(t)" % (T, fn))))
+                            b.append(pre + "putchar(PRES(%s_%s_is_present(t))); %s" % (T, fn, self.print_scalar(t, "%s_%s(t)" % (T, fn))))
                     else:
                         b.append(pre + "if (%s_%s_is_present(t)) { putchar('='); dhex(%s_%s(t)->d, sizeof(g_%s_t)); } else putchar('~');"
                                  % (T, fn, T, fn, sname(f["a"], f["b"])))
@@ -391,7 +407,7 @@ class Prog:
 
     def add_inplace(self, o, ti, f, val, style, refs, force):
         """style 1/2: field-specific start/end, create, push variants of the generated table field API"""
-        k, i = f["kind"], f["id"]; T = "g_T%d" % ti; fn = "f%d" % i
+        k, i = f["kind"], f["id"]; T = "g_T%d" % ti; fn = "f%d%s" % (i, FIELD_SUFFIX)
         if k == "str" and val.k == "s" and not getattr(val, "shared", False):
             d, decl = self.bytes_lit(val.data); o.append(decl)
             if style == 1: o.append("if (%s_%s_create(B, (const char *)%s, %d)) return -1;" % (T, fn, d, len(val.data)))
@@ -520,7 +536,7 @@ class Prog:
         raise ValueError(k)
 
     def add_field(self, o, ti, f, val, ref, style, force):
-        k, i = f["kind"], f["id"]; T = "g_T%d" % ti; fn = "f%d" % i
+        k, i = f["kind"], f["id"]; T = "g_T%d" % ti; fn = "f%d%s" % (i, FIELD_SUFFIX)
         if k == "s":
             ft = self.ty.ftype[(ti, i)]
             if ft["kind"] == "scalar":
@@ -656,3 +672,33 @@ int main(int argc, char **argv) {
 }
 """.replace("@DSW@", dsw))
         return "\n".join(o)
+
+
+JSON_MAIN = open(os.path.join(os.path.dirname(os.path.dirname(os.path.abspath(__file__))), "harness", "json_main.c.in")).read()
+
+
+def json_source(P, flagsets):
+    """P: Prog with cases added (plain roots only). flagsets[i] = list of (printer flags, indent or -1, parser flags)."""
+    nt = len(P.tables)
+    o = ['#include <stdio.h>', '#include <stdlib.h>', '#include <string.h>', '#include <stdint.h>', '#include "s_builder.h"', '#include "s_reader.h"',
+         '#include "s_verifier.h"', '#include "s_json_parser.h"', '#include "s_json_printer.h"',
+         "static float u2f(uint32_t u) { float f; memcpy(&f, &u, 4); return f; }",
+         "static double u2d(uint64_t u) { double f; memcpy(&f, &u, 8); return f; }",
+         P.dump_functions()]
+    o.extend(P.cases)
+    o.append("typedef int case_f(flatcc_builder_t *B);")
+    o.append("static case_f *cases[] = {%s};" % (", ".join("case_%d" % i for i in range(len(P.cases))) or "0"))
+    o.append("static const int root_ti[] = {%s};" % (", ".join(str(m[0]) for m in P.meta) or "0"))
+    nf = max([len(f) for f in flagsets] + [1])
+    o.append("#define NFLAGS %d\n#define NT %d" % (nf, nt))
+    rows = []
+    for fs in flagsets:
+        fs = list(fs) + [fs[-1]] * (nf - len(fs))
+        rows.append("{%s}" % ", ".join("{%d, %d, %d}" % f for f in fs))
+    o.append("static const int flagsets[][NFLAGS][3] = {%s};" % (", ".join(rows) or "{{0,0,0}}"))
+    tables = ("static print_f *printers[] = {%s};\nstatic parse_f *parsers[] = {%s};"
+              % (", ".join("g_T%d_print_json_as_root" % i for i in range(nt)), ", ".join("g_T%d_parse_json_as_root" % i for i in range(nt))))
+    dsw = "\n".join("    case %d: dump_T%d(g_T%d_as_root(p)); break;" % (i, i, i) for i in range(nt))
+    vsw = "\n".join("    case %d: return ws ? g_T%d_verify_as_root_with_size(buf, size) : g_T%d_verify_as_root(buf, size);" % (i, i, i) for i in range(nt))
+    o.append(JSON_MAIN.replace("@TABLES@", tables).replace("@DUMPSW@", dsw).replace("@VERSW@", vsw))
+    return "\n".join(o)
